@@ -14,7 +14,7 @@ CONSTANTS
   PartKinds = {"inmarker", "ver2"}
   Markers = {"Saved"}
   Places = {"near", "far"}
-  CtlKinds = {"none", "out", "fake"}
+  CtlKinds = {"none", "out"}
   WithJunk = TRUE
 INVARIANTS TypeOK AtMostOnePerChunk FieldsAsAdvertised ShownFormInert RelayFormStillRecognised ReplaySuppressed RecentRemembered ScrollbackSuppressed FreshIdFires
 CHECK_DEADLOCK FALSE
